@@ -28,25 +28,30 @@ Section C15.
       a pulse of proportion zero moves nothing *)
   Hypothesis H_T0 : forall nus ms gs hs th be fr nm s, o_integrate 0 nus ms gs hs th be fr nm s = s.
   Hypothesis H_pulse0 : forall d srcs dst fs s, Forall (fun f => f = 0) fs -> o_pulse d srcs dst fs s = s.
+  (** directly after the first split (PhiManip.phi_1D_to_2D: the density lives on the diagonal) a third population created by
+      admixture in any proportion f is the split of population 2: f x + (1 - f) x = x (rule [fuse] of the normaliser; decides
+      the zero-length-first-epoch nestings of the admix_origin family at T1 = 0 against the sim_split family).  Proved for the concrete operations:
+      Props/C15Concrete.v C15_concrete_H_admix_diag *)
+  Hypothesis H_admix_diag : forall f s, o_admixnew 2 [f] (o_split 1 0 s) = o_split 2 1 (o_split 1 0 s).
 
   Theorem C15_simp_sound : forall A env, env_ok A env -> forall e t, eval (simp A e) env t = eval e env t.
   Proof. exact simp_sound. Qed.
 
   Theorem C15_norm_sound : forall A env, env_ok A env -> forall p s, semp (norm A p) env s = semp p env s.
-  Proof. exact (norm_sound St o_grid o_phi1d o_split o_admixnew o_pulse o_integrate o_remove o_reorder o_fromphi o_fromphi_inb o_mscmd H_T0 H_pulse0). Qed.
+  Proof. exact (norm_sound St o_grid o_phi1d o_split o_admixnew o_pulse o_integrate o_remove o_reorder o_fromphi o_fromphi_inb o_mscmd H_T0 H_pulse0 H_admix_diag). Qed.
 
   (** a discharged nesting obligation: for every admissible parameter vector of the simple model, the complex
       model run at the nesting point computes what the simple model computes *)
   Theorem C15_nesting_sound : forall A sg complex simple, nests A sg complex simple = true ->
     forall env, env_ok A env -> forall s, semp complex (env_of sg env) s = semp simple env s.
-  Proof. exact (nesting_sound St o_grid o_phi1d o_split o_admixnew o_pulse o_integrate o_remove o_reorder o_fromphi o_fromphi_inb o_mscmd H_T0 H_pulse0). Qed.
+  Proof. exact (nesting_sound St o_grid o_phi1d o_split o_admixnew o_pulse o_integrate o_remove o_reorder o_fromphi o_fromphi_inb o_mscmd H_T0 H_pulse0 H_admix_diag). Qed.
 
   (** a discharged TWO-SIDED nesting obligation (both models instantiated over a common parameter vector, e.g. a complex
       model with a zero-length epoch against a simple model at unit sizes): for every admissible common vector the two
       models, each run at its side of the nesting point, compute the same *)
   Theorem C15_nesting2_sound : forall A sgc sgs complex simple, nests2 A sgc sgs complex simple = true ->
     forall env, env_ok A env -> forall s, semp complex (env_of sgc env) s = semp simple (env_of sgs env) s.
-  Proof. exact (nesting2_sound St o_grid o_phi1d o_split o_admixnew o_pulse o_integrate o_remove o_reorder o_fromphi o_fromphi_inb o_mscmd H_T0 H_pulse0). Qed.
+  Proof. exact (nesting2_sound St o_grid o_phi1d o_split o_admixnew o_pulse o_integrate o_remove o_reorder o_fromphi o_fromphi_inb o_mscmd H_T0 H_pulse0 H_admix_diag). Qed.
 
   (** a discharged well-formedness obligation: the unpacking binds exactly the declared names, every
       parameter occurs, no other does, and the result depends on nothing but those entries *)
@@ -76,7 +81,7 @@ Section C15.
        = tr (o_integrate T nus ms gs hs th be fr nm s)) ->
     forall A sg p, equivariant A pm sg p = true ->
     forall env, env_ok A env -> forall s, semp p env (tr s) = tr (semp p (env_of sg env) s).
-  Proof. exact (equivariance_sound St o_grid o_phi1d o_split o_admixnew o_pulse o_integrate o_remove o_reorder o_fromphi o_fromphi_inb o_mscmd H_T0 H_pulse0). Qed.
+  Proof. exact (equivariance_sound St o_grid o_phi1d o_split o_admixnew o_pulse o_integrate o_remove o_reorder o_fromphi o_fromphi_inb o_mscmd H_T0 H_pulse0 H_admix_diag). Qed.
 End C15.
 Print Assumptions C15_simp_sound.
 Print Assumptions C15_norm_sound.
@@ -116,3 +121,13 @@ Example C15_nonvacuous_two_sided :
   nests2 ex_A_bgsm_common ex_sgc_bgsm ex_sgs_bgsm ex_bgsm_sel ex_split_mig_sel = true /\
   nests2 ex_A_bgsm_common ex_sgc_bgsm ex_sgs_bgsm ex_bgsm_sel_wrong ex_split_mig_sel = false.
 Proof. exact ex_nests2. Qed.
+
+(** non-vacuity of rule [fuse] (zero-length first epoch before an admixed origin): admix_origin_uni_mig_adj
+    (nu1,nu2,nu3,m32,m31,T1,T2,f) at T1 = 0 normalises to sim_split_uni_mig_adjacent_var (nu1,nu2,nu3,m32,m31,T1) for every f; the
+    same function with the two one-way rates into population 3 exchanged in all their occurrences (the unpacking transposed
+    relative to __param_names__) does not -- although it still reduces to admix_origin_no_mig at zero migration and is still
+    invariant under the exchange of populations 1 and 2 *)
+Example C15_nonvacuous_fuse :
+  nests2 ex_A_admix_common ex_sgc_admix ex_sgs_admix ex_admix_uni ex_sim_split_uni = true /\
+  nests2 ex_A_admix_common ex_sgc_admix ex_sgs_admix ex_admix_uni_exchanged ex_sim_split_uni = false.
+Proof. exact ex_fuse. Qed.
